@@ -939,6 +939,94 @@ func runRedial(out *vio.Out, le *logrus.Entry) {
 	out.Emit(res)
 }
 
+// runFlash: remote endpoints connect and close their link at once, while the controller's lock is contended by readers:
+// the established / lost reports of one link race each other. Afterwards no closed link may be reported.
+func runFlash(out *vio.Out, le *logrus.Entry) {
+	n := &memNet{eps: map[string]*endpoint{}}
+	ctx, cancel := context.WithCancel(context.Background())
+	defer cancel()
+	lk := vio.Key("quicnet/ctl")
+	tb, err := testbed.NewTestbed(ctx, le, testbed.TestbedOpts{PrivKey: lk, NoEcho: true})
+	if err != nil {
+		vio.Fatal("%v", err)
+	}
+	defer tb.Release()
+	localID, _ := peer.IDFromPrivateKey(lk)
+	ep := n.bind("addrCtl")
+	ctor := func(ctx context.Context, le *logrus.Entry, pkey crypto.PrivKey, h transport.TransportHandler) (transport.Transport, error) {
+		t, err := pconn.NewTransport(ctx, le, pkey, h, slowOpts, 9, ep, parseAddr, nil)
+		if err != nil {
+			return nil, err
+		}
+		return &dialerTpt{t}, nil
+	}
+	ctrl := tptc.NewController(le, tb.Bus, controller.NewInfo("verif/quic", semver.MustParse("0.0.1"), ""), localID, false, ctor)
+	rel, err := tb.Bus.AddController(ctx, ctrl, nil)
+	if err != nil {
+		vio.Fatal("%v", err)
+	}
+	defer rel()
+	if _, err := ctrl.GetTransport(ctx); err != nil {
+		vio.Fatal("%v", err)
+	}
+	nodeOpts = slowOpts
+	xid := vio.PeerID("quicnet/X")
+	stopSpin := make(chan struct{})
+	for k := 0; k < 4; k++ {
+		go func() {
+			for {
+				select {
+				case <-stopSpin:
+					return
+				default:
+					_ = ctrl.GetPeerLinks(xid)
+				}
+			}
+		}()
+	}
+	rounds := 150
+	if vio.Tier() == "thorough" {
+		rounds = 1500
+	}
+	stale, connected := 0, 0
+	tpt, _ := ctrl.GetTransport(ctx)
+	for r := 0; r < rounds; r++ {
+		x := startNode(n, le, "X", fmt.Sprintf("addrF%d", r))
+		dctx, dcancel := context.WithTimeout(ctx, 10*time.Second)
+		if r%2 == 0 {
+			// the remote end connects and closes at once
+			l, _, err := x.tpt.DialPeer(dctx, localID, "addrCtl")
+			if err == nil && l != nil {
+				connected++
+				_ = l.Close()
+			}
+		} else {
+			// the local end dials and closes the link the moment the dial returns
+			l, _, err := tpt.(*dialerTpt).DialPeer(dctx, xid, fmt.Sprintf("addrF%d", r))
+			if err == nil && l != nil {
+				connected++
+				_ = l.Close()
+			}
+		}
+		dcancel()
+		x.stop()
+	}
+	close(stopSpin)
+	// every session is closed: eventually (bound 20 s) nothing is reported any more
+	for dl := time.Now().Add(20 * time.Second); time.Now().Before(dl); {
+		if len(ctrl.GetPeerLinks(xid)) == 0 {
+			break
+		}
+		time.Sleep(50 * time.Millisecond)
+	}
+	for _, l := range ctrl.GetPeerLinks(xid) {
+		if c, ok := l.(interface{ GetContext() context.Context }); ok && c.GetContext().Err() != nil {
+			stale++
+		}
+	}
+	out.Emit(map[string]any{"e": "flash", "rounds": rounds, "connected": connected, "reported_at_end": len(ctrl.GetPeerLinks(xid)), "closed_still_reported": stale})
+}
+
 func main() {
 	mode := flag.String("mode", "certs", "")
 	cases := flag.String("cases", "", "")
@@ -954,6 +1042,8 @@ func main() {
 	out := vio.NewOut(*outp)
 	if *mode == "certs" {
 		runCerts(*cases, out)
+	} else if *mode == "flash" {
+		runFlash(out, logrus.NewEntry(lg))
 	} else if *mode == "redial" {
 		runRedial(out, logrus.NewEntry(lg))
 	} else if *mode == "links" {
